@@ -154,6 +154,59 @@ pub fn history_strategy(max_ops: usize, adversarial: bool, inbound_weight: u32, 
         .prop_map(|(max_in, max_out, ops, drain, general, listen)| History { max_in, max_out, ops, drain, general, listen })
 }
 
+/// The small-scope space for exhaustive enumeration: two peers with one canonical address each, 14 operations, four limit
+/// configurations (none, (1,1), outbound only, inbound only) and two ways of concluding what is left (all succeed / all
+/// fail). Index order is shortest history first.
+pub const SMALL_ALPHABET: usize = 14;
+
+pub fn small_space_size(max_len: u32) -> u64 {
+    let mut total = 0u64;
+    let mut block = 1u64;
+    for _ in 0..max_len {
+        block *= SMALL_ALPHABET as u64;
+        total += block;
+    }
+    total * 8
+}
+
+pub fn small_history(index: u64) -> History {
+    let cfg = index % 8;
+    let mut i = index / 8;
+    let mut len = 1usize;
+    let mut block = SMALL_ALPHABET as u64;
+    while i >= block {
+        i -= block;
+        block *= SMALL_ALPHABET as u64;
+        len += 1;
+    }
+    let canonical = |peer: u8| AddrSel { first: 0, second: 0, port: 30_001, host: 10 + peer, tail: 1 };
+    let mut ops = Vec::with_capacity(len);
+    for _ in 0..len {
+        let d = (i % SMALL_ALPHABET as u64) as u8;
+        i /= SMALL_ALPHABET as u64;
+        ops.push(match d {
+            0 | 1 => Op::AddKnown { peer: d, addrs: vec![canonical(d)] },
+            2 | 3 => Op::Dial { peer: d - 2 },
+            4 | 5 => Op::DialAddress { peer: d - 4, addr: canonical(d - 4) },
+            6 | 7 => Op::Inbound { peer: d - 6 },
+            8 => Op::Resolve { pick: 0, outcome: 0 },
+            9 => Op::Resolve { pick: 0, outcome: 1 },
+            10 => Op::Resolve { pick: u16::MAX, outcome: 0 },
+            11 => Op::Resolve { pick: u16::MAX, outcome: 3 },
+            12 => Op::Close { pick: 0 },
+            _ => Op::Close { pick: u16::MAX },
+        });
+    }
+    let (max_in, max_out) = match cfg / 2 {
+        0 => (None, None),
+        1 => (Some(1), Some(1)),
+        2 => (None, Some(1)),
+        _ => (Some(1), None),
+    };
+    let drain = if cfg % 2 == 0 { vec![(0u16, 0u8); 12] } else { vec![(0u16, 1u8); 12] };
+    History { max_in, max_out, ops, drain, general: false, listen: Vec::new() }
+}
+
 #[derive(Debug, Clone)]
 pub enum Obligation {
     /// `dial(id, address)`: exactly one of Established / DialFailure
